@@ -140,7 +140,7 @@ func (p *Prog) findVBIEncoder() *vbiEncoder {
 					if !ok {
 						continue
 					}
-					bo, ok := iff.Cond.(*ssa.BinOp)
+					bo, ok := loopCondValue(l, iff.Cond).(*ssa.BinOp)
 					if !ok || bo.X != ssa.Value(enc.quot) {
 						continue
 					}
